@@ -203,7 +203,29 @@ def check_whitespace(run: common.Run, src: str, seps: List[int], report) -> None
     if len(toks) < 2:
         return
     run.tick()
-    text = "".join(tk + SEPS[seps[i % len(seps)] % len(SEPS)] for i, tk in enumerate(toks))
+    def can_abut(left: str, right: str) -> bool:
+        """May the two tokens be written with nothing between them without becoming other tokens? (conservative: one side must be a bracket, comma,
+        colon or question mark - or the left an identifier/keyword and the right an opening bracket, or the left a closing bracket)"""
+        safe = set("()[]{},:?")
+        if left[-1] in safe and right[0] in safe:
+            return True
+        if right[0] in "([{" and (left[-1].isalnum() or left[-1] == "_") and not left[:1].isdigit():
+            return True  # f( , x[ , in[ , in(
+        if left[-1] in ")]}" and right[0] not in "\"'":
+            return True
+        if left[-1] in "([{,:?" and right[0] not in "-.":
+            return True
+        return False
+
+    parts = []
+    for i, tk in enumerate(toks):
+        sep = SEPS[seps[i % len(seps)] % len(SEPS)]
+        # every third gap (by the drawn number) is closed up entirely where the two tokens allow it
+        if seps[i % len(seps)] % 3 == 0 and i + 1 < len(toks) and can_abut(tk, toks[i + 1]):
+            sep = ""
+            run.event("whitespace-gap-closed")
+        parts.append(tk + sep)
+    text = "".join(parts)
     if any("//" in SEPS[s % len(SEPS)] for s in seps) or "\n" in text:
         run.nt(("ws", text))
     run.event("whitespace")
